@@ -262,7 +262,8 @@ theorem ka_inputOp (p : String) : KeepsAll (inputOp p) := by
 theorem ka_copyOp (d s : String) (g : Bool) : KeepsAll (copyOp d s g) := by
   unfold copyOp
   refine ka_bind ?_ (fun _ => ka_bind ka_get (fun _ => ka_bind (ka_callFunc _ _ _) (fun _ =>
-    ka_bind (ka_callFunc _ _ _) (fun _ => ka_bind ka_get (fun _ => ka_pure _)))))
+    ka_bind ka_nextHelperVar (fun _ => ka_bind (ka_callFunc _ _ _) (fun _ => ka_bind ka_get (fun _ =>
+      ka_bind (ka_varAssignment _ _ _) (fun _ => ka_varEvaluation _ _)))))))
   apply ka_flag; intro s; simp
 
 theorem ka_existsOp (p : String) : KeepsAll (existsOp p) := by
